@@ -151,12 +151,14 @@ let check_records (recf : string) =
 
 (* ------------------------------------------------------------------ C01: lines are in-order slices *)
 let gap_chars_ok (le : str) (g : str) : bool =
-  (* only ASCII spaces and complete line-ending sequences *)
+  (* what may be lost between two consecutive slices: ASCII spaces, then at most one
+     line-ending sequence (the next slice is the first line of the next paragraph) *)
   let rec go = function
     | [] -> true
     | c :: r when is_sp c -> go r
-    | l -> (match strip_prefix le l with Some r -> go r | None -> false) in
+    | l -> (match strip_prefix le l with Some r -> r = [] | None -> false) in
   go g
+let all_spaces (g : str) : bool = List.for_all is_sp g
 
 let c01_check ?(owned = false) (o : options) (text : str) (lines : ol list) : string option =
   let le = le_str o.o_le in
@@ -173,7 +175,7 @@ let c01_check ?(owned = false) (o : options) (text : str) (lines : ol list) : st
   let rec go idx pos =
     if Hashtbl.mem failed (idx, pos) then false
     else if idx = nlines then begin
-      if gap_chars_ok le (sub pos n) then true else (why := "characters other than spaces and line endings are lost after the last line"; false)
+      if all_spaces (sub pos n) then true else (why := "characters other than spaces are lost after the last line"; false)
     end else begin
       let l = larr.(idx) in
       let ind = if idx = 0 then o.o_ii else o.o_si in
@@ -184,8 +186,8 @@ let c01_check ?(owned = false) (o : options) (text : str) (lines : ol list) : st
             let cands =
               (body, false)
               :: (match o.o_spl, List.rev body with
-                  | SplNone, _ -> []
-                  | _, c :: rb when N.eqb c hY -> [(List.rev rb, true)]
+                  (* only a custom splitter inserts a hyphen; the built-in one splits after an existing one *)
+                  | SplCustom, c :: rb when N.eqb c hY -> [(List.rev rb, true)]
                   | _ -> []) in
             List.exists
               (fun (sl, inserted) ->
@@ -196,7 +198,7 @@ let c01_check ?(owned = false) (o : options) (text : str) (lines : ol list) : st
                   if s > n then false
                   else begin
                     let ok_here =
-                      gap_chars_ok le (sub pos s)
+                      (if idx = 0 then s = 0 else gap_chars_ok le (sub pos s))
                       && matches_at s sl
                       && (let cow_ok =
                             if ind = [] && not inserted && not owned then
@@ -290,12 +292,19 @@ let c13_attached (hyphen : bool) (t : str) : bool =
                 (* classify the sequence: CSI must end in 'm'; OSC must start with "8;" *)
                 if !j + 1 < n && N.eqb arr.(!j + 1) lBRACK then begin
                   let k = ref (!j + 2) in
-                  while !k < n && not (is_final arr.(!k)) do incr k done;
+                  while !k < n && not (is_final arr.(!k)) do
+                    (* SGR parameters are parameter bytes (digits ; : < = > ?) *)
+                    (let c = int_of_n arr.(!k) in if c < 0x30 || c > 0x3f then ok := false);
+                    incr k
+                  done;
                   if !k >= n || int_of_n arr.(!k) <> 0x6d then ok := false
                 end else if !j + 3 < n && N.eqb arr.(!j + 1) rBRACK then begin
                   if not (int_of_n arr.(!j + 2) = 0x38 && int_of_n arr.(!j + 3) = 0x3b) then ok := false
                 end else ok := false
               end;
+              (* no line break or space inside a sequence (hyperlink payloads included) *)
+              (if not kind_start then
+                 let c = arr.(!j) in if N.eqb c lF || N.eqb c cR || is_sp c then ok := false);
               st := fst (step !st arr.(!j));
               incr j
             end
@@ -492,6 +501,12 @@ let word_ok15 (w : str) : bool =
   match w with
   | [] -> false
   | c :: _ -> not (is_prefix_char c) && List.for_all (fun x -> not (is_sp x || N.eqb x cR || N.eqb x lF)) w
+
+(* the option domain of C15/C16 (the theorems' hypotheses): breaks at spaces only, indents
+   made of unfill's prefix characters *)
+let opts_ok15 (o : options) : bool =
+  o.o_bw = false && o.o_spl = SplNone && o.o_sep = SepAscii
+  && List.for_all is_prefix_char o.o_ii && List.for_all is_prefix_char o.o_si
 
 (* ------------------------------------------------------------------ the dispatcher *)
 let run (lineno : int) (lbc : str -> n list) ofit (args : string array) (impl : string) (recf : string) : unit =
@@ -696,7 +711,7 @@ let run (lineno : int) (lbc : str -> n list) ofit (args : string array) (impl : 
                 let ind = if i = 0 then o.o_ii else o.o_si in
                 if n_lt o.o_width (dwm l.txt) then begin
                   match strip_prefix ind l.txt with
-                  | None -> ()
+                  | None -> verdict := "FAIL"; detail := Printf.sprintf "line %d is wider than the width and does not start with its indent" i
                   | Some body ->
                       let bodies = body :: (match o.o_spl, List.rev body with
                                             | SplCustom, c :: rb when N.eqb c hY -> [List.rev rb] | _ -> []) in
@@ -783,11 +798,14 @@ let run (lineno : int) (lbc : str -> n list) ofit (args : string array) (impl : 
                 splits into as many lines as wrap returned and wrap's own lines pass *)
              let full = a @ le @ b in
              let fl = split_le o.o_le (ds r5) in
-             if List.length fl = List.length t2 then begin
-               match c01_check ~owned:true o full (List.map (fun t -> { kind = "O"; off = 0; txt = t }) fl), c01_check o full t2 with
-               | Some why, None -> say "C01" "FAIL" ("fill: " ^ why)
-               | _ -> say "C01" "ok" "fill"
-             end
+             (match c01_check o full t2 with
+              | Some why -> say "C01" "FAIL" ("wrap(a+ending+b): " ^ why)
+              | None ->
+                  if List.length fl = List.length t2 then begin
+                    match c01_check ~owned:true o full (List.map (fun t -> { kind = "O"; off = 0; txt = t }) fl) with
+                    | Some why -> say "C01" "FAIL" ("fill: " ^ why)
+                    | None -> say "C01" "ok" "fill"
+                  end else say "C01" "skip" "fill's result does not split into as many lines as wrap returned (C09 judges that)")
          | _ -> ())
     | "wrap13" ->
         let o = dopts (f 1) and t = ds (f 2) in
@@ -858,14 +876,20 @@ let run (lineno : int) (lbc : str -> n list) ofit (args : string array) (impl : 
              if not (pc uii && pc usi) then say "C15" "FAIL" "a returned indent contains a non-prefix character"
              else if (match nel with l :: _ -> not (is_prefix uii l) | [] -> uii <> []) then say "C15" "FAIL" "initial indent is not a prefix of the first line"
              else if (match nel with _ :: r -> List.exists (fun l -> not (is_prefix usi l)) r | [] -> false) then say "C15" "FAIL" "subsequent indent is not a prefix of a later line"
+             else if (match str_lines t with l :: _ -> not (is_prefix uii l) | [] -> uii <> []) then say "C15" "FAIL" "initial indent is not a prefix of line 0 (empty lines counted)"
+             else if (match str_lines t with _ :: r -> List.exists (fun l -> not (is_prefix usi l)) r | [] -> false) then say "C15" "FAIL" "subsequent indent is not a prefix of every later line (empty lines counted)"
              else if List.mem lF inner then say "C15" "FAIL" "unfilled text contains an inner line break"
              else if no_empty && ((ule = "crlf") <> all_crlf) then say "C15" "FAIL" "reported line ending is wrong"
              else say "C15" "ok" "structural"
          | _ -> say "C15" "FAIL" "unparsable result")
     | "unfill15" when not (List.for_all word_ok15 (List.map ds (dlist (f 2))) && dlist (f 2) <> []) ->
         say "C15" "skip" "words outside the property's domain"
+    | "unfill15" when not (opts_ok15 (dopts (f 1))) ->
+        say "C15" "skip" "options outside the property's domain (breaks at spaces only, indents of prefix characters)"
     | "refill16" when not (List.for_all word_ok15 (List.map ds (dlist (f 3))) && dlist (f 3) <> []) ->
         say "C16" "skip" "words outside the property's domain"
+    | "refill16" when not (opts_ok15 (dopts (f 1)) && opts_ok15 (dopts (f 2))) ->
+        say "C16" "skip" "options outside the property's domain (breaks at spaces only, indents of prefix characters)"
     | "unfill15" ->
         let o = dopts (f 1) and words = List.map ds (dlist (f 2)) and tail = (f 3 = "1") in
         let para = join [sP] words in
